@@ -236,7 +236,7 @@ def family(run, prefixes, faults, crash, variants=None):
 
 @register("C04")
 def c04(run):
-    family(run, ["C04_"], faults=False, crash=False, variants={"nowait": 0.3})
+    family(run, ["C04_", "C06_clean_restart"], faults=False, crash=False, variants={"nowait": 0.3})
 
 
 @register("C08")
